@@ -571,6 +571,10 @@ class Interp:
                 raise Unknown('bound method %s.%s of a local container taken as a value' % (n.value.id, n.attr))
             if base[0] == 'tuple' and base in getattr(self, 'ntuple_fields', {}) and n.attr in self.ntuple_fields[base]:
                 return base[1][self.ntuple_fields[base].index(n.attr)]          # field of a namedtuple record
+            if n.attr == '__members__' and base[0] == 'sym' and base[1] in ENUM_CLASSES:
+                ms = self.enum_members_of(base)
+                if is_literal_seq(ms):
+                    return ('dict', tuple((C(m_[2]), m_) for m_ in ms[1]))          # name -> member
             t = self.load(A(base, n.attr))
             if t == A(base, n.attr):
                 cc = self.class_constant(base, n.attr, fr)
@@ -1680,7 +1684,7 @@ class Interp:
         ir = self.induction_rewrite(s, fr)
         if ir is not None:
             return self.stmt_for(ir, fr)
-        dom = self.ex(s.iter, fr)
+        dom = self.enum_members_of(self.ex(s.iter, fr))           # `for member in SomeEnum`: its members, in order
         if s.orelse:
             raise Unknown('for-else')
         if dom[0] == 'const' and isinstance(dom[1], str) and len(dom[1]) <= 8:
